@@ -304,6 +304,39 @@ fn run(op: &Value) -> Value {
                 }
             }
         }
+        "unknown_fields" => {
+            #[derive(serde::Deserialize, Debug)]
+            #[allow(dead_code)]
+            struct S0 {}
+            #[derive(serde::Deserialize, Debug)]
+            #[allow(dead_code)]
+            struct S1 { a: i32 }
+            #[derive(serde::Deserialize, Debug)]
+            #[allow(dead_code)]
+            struct S2 { a: i32, b: i32 }
+            let doc = op["doc"].as_str().unwrap();
+            let val: Value = serde_json::from_str(doc).unwrap();
+            let smile = conjure_serde::smile::to_vec(&val).unwrap();
+            fn show<T: std::fmt::Debug, E: std::fmt::Display>(r: Result<T, E>) -> String {
+                match r {
+                    Ok(_) => "ok".to_string(),
+                    Err(e) => {
+                        let m = e.to_string();
+                        match m.find("unknown field `") {
+                            Some(i) => { let rest = &m[i + 15..]; format!("err:{}", &rest[..rest.find('`').unwrap_or(rest.len())]) }
+                            None => format!("err?{}", m),
+                        }
+                    }
+                }
+            }
+            macro_rules! go {
+                ($t:ty) => {
+                    json!({"json": {"server": show(conjure_serde::json::server_from_str::<$t>(doc)), "client": show(conjure_serde::json::client_from_str::<$t>(doc))},
+                           "smile": {"server": show(conjure_serde::smile::server_from_slice::<$t>(&smile)), "client": show(conjure_serde::smile::client_from_slice::<$t>(&smile))}})
+                };
+            }
+            match op["fields"].as_u64().unwrap() { 0 => go!(S0), 1 => go!(S1), _ => go!(S2) }
+        }
         _ => json!({"error": format!("unknown op {}", name)}),
     }
 }
